@@ -224,13 +224,14 @@ func cmdCheck(args []string) int {
 
 		// --- candidates: assertion violations and abnormal path ends
 		type cand struct {
-			id    string
-			kind  string
-			model smt.Model
+			id      string
+			kind    string
+			model   smt.Model
+			classes []string // open known-finding classes true in the model (abnormal ends)
 		}
 		var cands []cand
 		for _, v := range s.Violations {
-			cands = append(cands, cand{v.ID, "assert", v.Model})
+			cands = append(cands, cand{v.ID, "assert", v.Model, nil})
 		}
 		for _, k := range []string{"panic", "budget", "deadlock"} {
 			for j, m := range s.EndModels[k] {
@@ -241,7 +242,11 @@ func cmdCheck(args []string) int {
 					problem("%s: path ended as %s without a model: %s", h.Fn, k, s.EndSamples[k][j])
 					continue
 				}
-				cands = append(cands, cand{"no-" + k + ": " + clip(s.EndSamples[k][j], 160), k, m})
+				var cls []string
+				if j < len(s.EndClasses[k]) {
+					cls = s.EndClasses[k][j]
+				}
+				cands = append(cands, cand{"no-" + k + ": " + clip(s.EndSamples[k][j], 160), k, m, cls})
 			}
 			if k != "panic" && !h.Termination && s.Ends[k] > 0 {
 				problem("%s: %d paths exceeded a bound (%s), e.g. %s", h.Fn, s.Ends[k], k, first(s.EndSamples[k]))
@@ -300,6 +305,17 @@ func cmdCheck(args []string) int {
 					}
 					ev.Unconfirmed++
 					problem("%s: counter-example for %q did not reproduce natively (model %v, native outcome %+v)", h.Fn, cd.id, cd.model, o)
+					continue
+				}
+				if cd.kind != "assert" && len(cd.classes) > 0 {
+					// a crash / hang that the harness attributes to an open known finding
+					for _, cls := range cd.classes {
+						ev.KnownSeen[cls]++
+						if !kfPrinted[cls] {
+							kfPrinted[cls] = true
+							fmt.Printf("KNOWN-FINDING: property=%s %s %s\n", *prop, cls, openKF[cls].Text)
+						}
+					}
 					continue
 				}
 				replayN++
